@@ -67,7 +67,7 @@ def stopAct : PTok → Bool
   | .kw .mtch | .rbrace => true
   | _ => false
 
-theorem acts_stop (cx : PCtx) (fuel : Nat) (acc : Option CTree) (s : PState) (t : PTok) (ts : List PTok)
+theorem acts_stop (cx : PCtx) (fuel : Nat) (acc : Option CTree) (s : ParseSt) (t : PTok) (ts : List PTok)
     (hs : Up s (t :: ts)) (ht : stopAct t = true) :
     wp (parseActions cx fuel acc) (fun a s' => a = acc ∧ Up s' (t :: ts)) NoErr True s := by
   cases fuel with
@@ -89,8 +89,8 @@ theorem acts_stop (cx : PCtx) (fuel : Nat) (acc : Option CTree) (s : PState) (t 
       exact ⟨by first | trivial | rfl, h1.up_some hok⟩
 
 /-- `andJoin` on line 1. -/
-theorem wp_andJoin (cx : PCtx) (hnl : cx.nl = 0) (acc : Option CTree) (a : CTree) {Q : Option CTree → PState → Prop}
-    {s : PState} {ts : List PTok} (h : Up s ts) (hQ : Q (some (joinA acc a)) s) :
+theorem wp_andJoin (cx : PCtx) (hnl : cx.nl = 0) (acc : Option CTree) (a : CTree) {Q : Option CTree → ParseSt → Prop}
+    {s : ParseSt} {ts : List PTok} (h : Up s ts) (hQ : Q (some (joinA acc a)) s) :
     wp (andJoin cx acc a) Q NoErr True s := by
   unfold andJoin
   simp only [wp_bind, wp_pure]
@@ -100,16 +100,16 @@ theorem wp_andJoin (cx : PCtx) (hnl : cx.nl = 0) (acc : Option CTree) (a : CTree
 /-- What is to be shown of a tree, by kind. -/
 def Goal (cx : PCtx) : Kind → CTree → Prop
   | .cond, _ => True
-  | .act, t => ∀ (acc : Option CTree) (ts : List PTok) (Q : Option CTree → PState → Prop),
+  | .act, t => ∀ (acc : Option CTree) (ts : List PTok) (Q : Option CTree → ParseSt → Prop),
       (∀ fuel' s', Up s' ts → wp (parseActions cx fuel' (some (joinA acc (relabel t)))) Q NoErr True s') →
       ∀ fuel s, Up s (toks .act t ++ ts) → wp (parseActions cx fuel acc) Q NoErr True s
-  | .acts, t => ∀ (acc : Option CTree) (ts : List PTok) (Q : Option CTree → PState → Prop),
+  | .acts, t => ∀ (acc : Option CTree) (ts : List PTok) (Q : Option CTree → ParseSt → Prop),
       (∀ fuel' s', Up s' ts → wp (parseActions cx fuel' (some (joinAs acc t))) Q NoErr True s') →
       ∀ fuel s, Up s (toks .acts t ++ ts) → wp (parseActions cx fuel acc) Q NoErr True s
-  | .rule, t => ∀ (acc : Option CTree) (t0 : PTok) (ts : List PTok) (Q : CTree → PState → Prop), stopAct t0 = true →
+  | .rule, t => ∀ (acc : Option CTree) (t0 : PTok) (ts : List PTok) (Q : CTree → ParseSt → Prop), stopAct t0 = true →
       (∀ fuel' s', Up s' (t0 :: ts) → wp (parseExprs cx fuel' (some (joinR acc (relabel t)))) Q NoErr True s') →
       ∀ fuel s, Up s (toks .rule t ++ t0 :: ts) → wp (parseExprs cx fuel acc) Q NoErr True s
-  | .rules, t => ∀ (acc : Option CTree) (t0 : PTok) (ts : List PTok) (Q : CTree → PState → Prop), stopAct t0 = true →
+  | .rules, t => ∀ (acc : Option CTree) (t0 : PTok) (ts : List PTok) (Q : CTree → ParseSt → Prop), stopAct t0 = true →
       (∀ fuel' s', Up s' (t0 :: ts) → wp (parseExprs cx fuel' (some (joinRs acc t))) Q NoErr True s') →
       ∀ fuel s, Up s (toks .rules t ++ t0 :: ts) → wp (parseExprs cx fuel acc) Q NoErr True s
   | .block, t => ∀ fuel, RT (parseExprs cx fuel none) (relabel t) ((toks .block t).drop 1)
@@ -277,7 +277,7 @@ theorem act_leaf_goal (cx : PCtx) (hnl : cx.nl = 0) (e : Expr) (ha : e.leafActio
       intro s2 h2
       -- the options
       have hfl : wp (parseExecFlags cx fuel false false) (fun fl s' => fl = (si, bo) ∧ Up s' (strsToks argv ++ ts)) NoErr True s2 := by
-        have hstop : ∀ (f : Nat) (a b : Bool) (s' : PState), Up s' (strsToks argv ++ ts) →
+        have hstop : ∀ (f : Nat) (a b : Bool) (s' : ParseSt), Up s' (strsToks argv ++ ts) →
             wp (parseExecFlags cx f a b) (fun fl s'' => fl = (a, b) ∧ Up s'' (strsToks argv ++ ts)) NoErr True s' := by
           intro f a b s' h'
           cases f with
